@@ -108,6 +108,10 @@ theorem wt_mono3 {a b : List CSem.Ty} (hab : ∀ (i : Nat) (t : CSem.Ty), a[i]? 
     intro h
     simp only [Expr3.wt, Bool.and_eq_true] at h ⊢
     exact ⟨⟨⟨⟨⟨ihc h.1.1.1.1.1, ihx h.1.1.1.1.2⟩, ihy h.1.1.1.2⟩, h.1.1.2⟩, h.1.2⟩, h.2⟩
+  | comma t x y ihx ihy =>
+    intro h
+    simp only [Expr3.wt, Bool.and_eq_true] at h ⊢
+    exact ⟨⟨ihx h.1.1, ihy h.1.2⟩, h.2⟩
 
 theorem take_mono_wt3 {vtys : List CSem.Ty} {n m : Nat} (h : n ≤ m) (e : Expr3)
     (hw : e.wt (vtys.take n) = true) : e.wt (vtys.take m) = true := by
@@ -139,6 +143,7 @@ theorem sim_expr3 (S : Sit) (σ : List Nat) (vtys : List CSem.Ty) (s : Store)
     (okcast : ∀ t e, ok (.cast t e) → ok e) (okneg : ∀ t e, ok (.neg t e) → ok e)
     (okbin : ∀ op t l r, ok (.bin op t l r) → ok l ∧ ok r)
     (okcond : ∀ t c a b, ok (.cond t c a b) → ok c ∧ ok a ∧ ok b)
+    (okcomma : ∀ t a b, ok (.comma t a b) → ok a ∧ ok b)
     (hI : ∀ (t : CSem.Ty) (arr n xb : Nat) (i : Expr) (c : Ctx) (pre post : List Item) (env : Env) (v : Int),
       ok (.idx t arr n xb i) → (Expr3.idx t arr n xb i).wt vtys = true →
       evalE3 S.cs callf s (.idx t arr n xb i) = some v →
@@ -476,6 +481,30 @@ theorem sim_expr3 (S : Sit) (σ : List Nat) (vtys : List CSem.Ty) (s : Store)
         · exact ((((hag1.mono (Nat.le_refl _) (by omega)).comp (hag2.mono (by omega) (by omega))).comp
             (hag3.mono (by omega) (by omega))).comp (hag4.mono (by omega) (by omega))).comp
             (Frame.insert env4 r' (by omega) (Nat.le_refl _))
+  | comma t a b iha ihb =>
+    intro c pre post env v hok hwt hev hits hcur hcok hn hinv
+    simp only [Expr3.wt, Bool.and_eq_true, beq_iff_eq] at hwt
+    obtain ⟨⟨hwa, hwb⟩, hty⟩ := hwt
+    subst hty
+    simp only [evalE3, Option.bind_eq_some_iff] at hev
+    obtain ⟨va, hea, heb⟩ := hev
+    have ga := funcexpr3_good S.cs σ a c
+    have gb := funcexpr3_good S.cs σ b (funcexpr3 S.cs σ a c).ctx
+    simp only [funcexpr3, Out.seq] at hits ⊢
+    have hits1 : S.its = pre ++ (funcexpr3 S.cs σ a c).items ++
+        ((funcexpr3 S.cs σ b (funcexpr3 S.cs σ a c).ctx).items ++ post) := by
+      rw [hits]; simp only [List.append_assoc]
+    refine RunsTo2.seq (iha c pre _ env va (okcomma _ _ _ hok).1 hwa hea hits1 hcur hcok hn hinv) ga.lastid
+      gb.lastid ?_
+    intro env1 r1 hag1 _ _
+    have hits2 : S.its = (pre ++ (funcexpr3 S.cs σ a c).items) ++
+        (funcexpr3 S.cs σ b (funcexpr3 S.cs σ a c).ctx).items ++ post := by
+      rw [hits]; simp only [List.append_assoc]
+    have hn1 : ∀ (i : Nat) (t : CSem.Ty), vtys[i]? = some t →
+        σ.getD i 0 ≤ (funcexpr3 S.cs σ a c).ctx.lastid :=
+      fun i t h => Nat.le_trans (hn i t h) ga.lastid
+    exact ihb _ _ _ env1 v (okcomma _ _ _ hok).2 hwb heb hits2 (ga.cur _ _ hcur) (ga.curOK hcok) hn1
+      (inv_agree hX hinv hag1.agree hn)
   | cond t e a b ihe iha ihb =>
     intro c pre post env v hok hwt hev hits hcur hcok hn hinv
     simp only [Expr3.wt, Bool.and_eq_true, beq_iff_eq] at hwt
